@@ -64,7 +64,7 @@ func genC17(seed uint64, r *rng.Rand) *Plan {
 	if g.R.Chance(0.4) {
 		at = g.R.Range(1, 6)
 	}
-	scen := []string{"retry-later", "flaky-server", "fatal-forever", "never-online", "meta-silent", "meta-down", "zk-errors", "log-closed", "fatal-in-multi", "nsre-request-only", "mixed-batch", "meta-rows-bad", "slow-dial-relayout", "cache-meta-hang"}[g.R.Intn(14)]
+	scen := []string{"retry-later", "flaky-server", "fatal-forever", "never-online", "meta-silent", "meta-down", "zk-errors", "log-closed", "fatal-in-multi", "nsre-request-only", "mixed-batch", "meta-rows-bad", "slow-dial-relayout", "cache-meta-hang", "dial-blackhole"}[g.R.Intn(15)]
 	p.Scenario = scen
 	switch scen {
 	case "retry-later":
@@ -146,6 +146,24 @@ func genC17(seed uint64, r *rng.Rand) *Plan {
 		for len(p.Tasks) < 3 {
 			p.Tasks = append(p.Tasks, Task{Ops: []Op{g.SingleOp(ts.Name, g.KeyNear(ts.Splits, 2), []string{"get", "put", "inc"})}})
 		}
+	case "dial-blackhole":
+		// a regionserver that swallows connection attempts (SYNs dropped): every
+		// dial lasts until the establisher's own deadline, the lookup timeout, on
+		// the simulated clock. The region is alive and a request waits for it.
+		// From the start (the dial for hbase:meta hangs) or after the region has
+		// been used and its server's connections were reset.
+		p.Client.LookupMS = []int{250, 1000, 5000}[g.R.Intn(3)]
+		o := g.SingleOp(ts.Name, g.KeyNear(ts.Splits, 2), []string{"get", "put"})
+		if g.R.Chance(0.5) {
+			p.Tasks = []Task{{Ops: []Op{o}}}
+			p.Faults = append(p.Faults, &Fault{On: "step", N: 1, Act: "dialdelay", Dur: 3600000})
+		} else {
+			o2 := g.SingleOp(ts.Name, o.Key, []string{"get", "put"})
+			p.Tasks = []Task{{Ops: []Op{o, {Kind: "sleep", MS: 2000}, o2}}}
+			p.Faults = append(p.Faults, &Fault{On: "ms", N: 1000, Act: "dialdelay", Dur: 3600000})
+			p.Faults = append(p.Faults, &Fault{On: "ms", N: 1001, Act: "reset", Server: g.R.Intn(p.Layout.Servers)})
+		}
+		p.Sched.MaxFake = time.Duration(g.R.Range(2, 12)) * time.Minute
 	case "cache-meta-hang":
 		// CacheRegions (the scan of all of a table's rows in hbase:meta) while the
 		// regionserver of hbase:meta has stopped answering: every attempt ends
@@ -370,6 +388,32 @@ func (w *World) checkC17() []Violation {
 			w.Env.Probe("c17-cache-attempts>=3")
 		}
 		vs = append(vs, w.checkStream(stream{name: "scenario " + scen + ", CacheRegions attempts (gaps net of the lookup timeout)", times: waits, free: 0})...)
+	}
+	if scen == "dial-blackhole" {
+		// per address, the dials that ran into the establisher's deadline: a dial
+		// lasts as long as the simulated network says (DoneAt - At), the rest of
+		// a gap is the wait, and the waits follow the schedule from the first one
+		byAddr := map[string][]*DialRec{}
+		var addrs []string
+		for _, d := range w.Env.Dials {
+			if d.Err != "" && d.DoneAt-d.At >= ms(w.Plan.Client.LookupMS) {
+				if byAddr[d.Addr] == nil {
+					addrs = append(addrs, d.Addr)
+				}
+				byAddr[d.Addr] = append(byAddr[d.Addr], d)
+			}
+		}
+		for _, a := range addrs {
+			ds := byAddr[a]
+			waits := []int64{0}
+			for k := 1; k < len(ds); k++ {
+				waits = append(waits, waits[k-1]+int64(ds[k].At-ds[k-1].DoneAt))
+			}
+			if len(ds) >= 4 {
+				w.Env.Probe("c17-blackhole-dials>=4")
+			}
+			vs = append(vs, w.checkStream(stream{name: "scenario " + scen + ", dials of " + a + " that ran into the lookup timeout (gaps net of the dials' duration)", times: waits, free: 0})...)
+		}
 	}
 	// (4) hot loop: the run consumed its step budget while fake time stood still
 	if n := w.Env.MaxInstantSteps; n > 40000 {
